@@ -81,9 +81,15 @@ def sym(ctx, cfg):
         rec["T"] = real_min(a)
         return rec["T"]
 
+    class _MedianOfNothing(Exception):
+        pass
+
     def rmed(a, *k, **kw):
         if len(a) == 0:
-            raise core.Abort("no decoys: outside the premise (numpy yields nan)")
+            if not ctx.decide(z3.Or([z3.Not(t) for t in zt])):
+                raise core.Abort("no decoys: outside the premise (numpy yields nan)")
+            # the table HOLDS a decoy, yet the code selected none for the median: numpy answers nan
+            raise _MedianOfNothing("median of an empty selection although the table holds decoys (numpy: nan scores)")
         rec["D"] = real_median(a)
         return rec["D"]
     ns.min, ns.median = rmin, rmed
@@ -218,9 +224,11 @@ def real_calibrate(cfg, inp):
     Dm = float(np.median(dec))
     if not T > Dm:
         return dict(outputs=None, violation=None)  # outside the premise
+    if not np.all(np.isfinite(np.asarray(out, dtype=float))):
+        return dict(violation="calibrated scores are not finite: %s (scores=%s targets=%s eval_fdr=%r, label encoding %s)" % (np.asarray(out, dtype=float).tolist(), scores.tolist(), tg, e, cfg.get("encoding")))
     exp = [(s - T) / (T - Dm) for s in scores]
     for i in range(n):
-        if abs(float(out[i]) - exp[i]) > 1e-9 * max(1.0, abs(exp[i])):
+        if not np.isfinite(float(out[i])) or abs(float(out[i]) - exp[i]) > 1e-9 * max(1.0, abs(exp[i])):
             return dict(violation="calibrated[%d]=%r, expected %r (scores=%s targets=%s eval_fdr=%r)" % (i, float(out[i]), exp[i], scores.tolist(), tg, e))
     return dict(outputs=dict(out=[float(x) for x in out]), violation=None)
 
